@@ -447,6 +447,48 @@ theorem py_sorted_ok_of_one_class {c : PyClass} (hc : c ≠ .none) (l : List PyV
   pySorted_ok_of_oneClass hc l h
 
 
+/-- **`sorted()` returns a permutation of its input** (CPython's `count_run` + `binarysort`, any values, whenever it does not
+raise): no x label of `raw_contrast`'s table is lost, duplicated or invented by the final sort. Unconditional. -/
+theorem py_sorted_perm (l out : List PyVal) (h : pySorted l = .ok out) : out.Perm l :=
+  pySorted_perm l out h
+
+/-- **and the result is sorted**: on numbers / strings every earlier value is `≤` every later one in the order `sorted()`
+realises (`a ≤ b :⇔ not (b < a)`) — the binary search of `binarysort` keeps the prefix sorted (invariant: everything left of
+`l` is `≤ pivot`, everything from `r` on is `≥ pivot`), the initial run is sorted (reversed when strictly descending). Any length. -/
+theorem py_sorted_sorted (l out : List PyVal) (hn : ∀ v ∈ l, pyClass v = .num ∨ pyClass v = .str)
+    (h : pySorted l = .ok out) : out.Pairwise pyLe :=
+  pySorted_sorted l out hn h
+
+example : ([PyVal.num 1, .num 1, .num 2, .num 3]).Pairwise pyLe :=
+  py_sorted_sorted [.num 3, .num 1, .num 2, .num 1] _ (by simp [pyClass]) (by decide +kernel)
+
+/-- the hypothesis "numbers or strings" is forced: frozensets are sorted without `TypeError`, but `<` (proper subset) is
+only a partial order there, so the result need not be ordered and depends on the arrival order (C18-F2's subject):
+`[{1,2},{3},{1}]` is one ascending run for `count_run` (`{3} < {1,2}` and `{1} < {3}` are both false) and comes back as it is,
+although `{1} < {1,2}`; the arrangement `[{1},{1,2},{3}]` of the same values comes back as it is, too. -/
+theorem py_sorted_fset_counterexample :
+    pySorted [.fset [1, 2], .fset [3], .fset [1]] = .ok [.fset [1, 2], .fset [3], .fset [1]] ∧
+    pyLt (.fset [1]) (.fset [1, 2]) = .ok true ∧   -- i.e. `¬ pyLe {1,2} {1}`: the result is not `Pairwise pyLe`
+    pySorted [.fset [1], .fset [1, 2], .fset [3]] = .ok [.fset [1], .fset [1, 2], .fset [3]] := by decide +kernel
+
+/-- **the outcome of `sorted()` does not depend on the order in which the values arrive** (numbers / strings): two
+arrangements of the same values give the same list, and one raises iff the other does — so the hash-dependent insertion
+order of the dict `XY` inside `raw_contrast` cannot influence its table. -/
+theorem py_sorted_order_independent (l1 l2 : List PyVal) (hp : l1.Perm l2) :
+    ((∃ o, pySorted l1 = .ok o) ↔ (∃ o, pySorted l2 = .ok o)) ∧
+    ((∀ v ∈ l1, pyClass v = .num ∨ pyClass v = .str) → ∀ o1 o2, pySorted l1 = .ok o1 → pySorted l2 = .ok o2 → o1 = o2) :=
+  ⟨pySorted_ok_perm l1 l2 hp, fun hn o1 o2 h1 h2 => pySorted_order_independent l1 l2 o1 o2 hp hn h1 h2⟩
+
+/-- lifted to `raw_contrast`'s final `sorted(XY.items())`: for any two fill orders of `XY` (same entries; the x labels are
+distinct dict keys, numbers / strings) the sorted table is the same. -/
+theorem raw_contrast_sort_order_independent (labs : List ((Key × Key) × PyVal))
+    (raw1 raw2 o1 o2 : List ((Key × Key) × List (Rat × Rat))) (hp : raw1.Perm raw2)
+    (hnd : (raw1.map (fun e => labOf labs e.1)).Nodup)
+    (hn : ∀ e ∈ raw1, pyClass (labOf labs e.1) = .num ∨ pyClass (labOf labs e.1) = .str)
+    (h1 : orderRawPy labs raw1 = .ok o1) (h2 : orderRawPy labs raw2 = .ok o2) : o1 = o2 :=
+  orderRawPy_perm labs raw1 raw2 o1 o2 hp hnd hn h1 h2
+
+
 /-! ### incrementally built Results (round g) -/
 
 /-- A table built by any schedule of in-index-order `Table.insert` batches with read-only analysis calls (which fill the
